@@ -2,6 +2,7 @@
 //! Depends on num-bigint only; shares no code with crrl.
 pub mod bf;
 pub mod curves;
+pub mod hashes;
 pub mod pf;
 
 pub fn unhex(s: &str) -> Vec<u8> {
